@@ -31,8 +31,13 @@ func VerifHarness_C19_IdentityURLRoundTrip() {
 	withV := ident.WithNewVersion(version)
 	s, ok := withV.RelativeVersionedURIString()
 	verifrt.Assert(ok && s == typ+"/"+id+"/_history/"+version, "versioned-form")
-	back2, err3 := NewIdentityFromHistoryURL("http://h/" + s)
+	back2, err3 := NewIdentityFromHistoryURL(base + s) // the relative form (base "") is what the identity itself formats
 	verifrt.Assert(err3 == nil && back2.Equal(withV), "history-url-round-trip")
+	// the type is a whole path segment: other characters in front of it make another (unknown) segment, not a prefix to skip
+	junk := []string{"x-", "foo.", "Not"}[verifrt.Choose("junk", 3)]
+	_, err4 := NewIdentityFromURL(base + junk + ident.RelativeURIString())
+	_, err5 := NewIdentityFromHistoryURL(base + junk + s)
+	verifrt.Assert(err4 != nil && err5 != nil, "type-with-other-characters-in-front-is-rejected")
 	verifrt.Reach("end")
 }
 
